@@ -999,12 +999,13 @@ PROBE_PARAM_KEYS = ("energy", "defocus", "semiangle_cutoff")
 # ~1.3e-7 relative, so a 1e-6 spread is only ~7x (losses: ~30x) above the rounding floor of a correct single-precision
 # implementation and cannot be told apart from it with a 20x margin on either side; 5e-6 still lies inside the default
 # relative tolerance (1e-5) of the usual approximate-equality tests.  Absolute differences range from 0.3 A to 4 A.
-NEAR_EQUAL_SPREADS = ((5e-6, 60000.0), (1e-4, 5000.0), (1e-3, 1000.0), (5e-3, 200.0), (9e-3, 200.0), (2e-2, 200.0))  # (relative spread, scale [A])
+NEAR_EQUAL_SPREADS = ((5e-6, 90000.0), (1e-4, 5000.0), (1e-3, 1000.0), (5e-3, 200.0), (9e-3, 200.0), (2e-2, 200.0))  # (relative spread, scale [A])
 NEAR_EQUAL_ORDERS = {3: ("ascending", "descending"), 4: ("ascending", "descending", "odd_first", "odd_middle", "odd_last")}
+NEAR_BASE_SCALE = (1.0, 3.0)  # the second base configuration (potential object, 8x8 ROI) is ~7x less sensitive in the l2 losses: 3x thicker slices
 NEAR_MIN_SENSITIVITY = 20.0
 # propagators read through the public property vs the simulator's per-gap ones: max |difference| <= NEAR_PROP_TOL[0] * (largest
 # propagator phase [rad]) + NEAR_PROP_TOL[1].  Observed on the unchanged tree: 1.3e-7 x phase (float32 phase rounding; 620 rad
-# for the 60000 A member), i.e. 8x below the bound | one common thickness: >= 5e-6 x phase, >= 5x the bound (>= 100x from 1e-4 on)
+# for the 90000 A member), i.e. 8x below the bound | one common thickness: >= 5e-6 x phase, >= 5x the bound (>= 100x from 1e-4 on)
 NEAR_PROP_TOL = (1e-6, 1e-6)
 
 
@@ -1068,7 +1069,7 @@ def order_items(tier, start):
                         # quick: every (slices, spread, order) at construction on the first base; the three other routes for
                         # every spread with the odd-one-out in the middle on the second base.  thorough: the full product
                         if tier != "quick" or (b == 0 and route == "construction") or (b == 1 and route != "construction" and order == "odd_middle"):
-                            add(kind="nearly_equal_thicknesses", base=b, slices=S, rel=rel, scale=scale, order=order, route=route, container="list")
+                            add(kind="nearly_equal_thicknesses", base=b, slices=S, rel=rel, scale=scale * NEAR_BASE_SCALE[b], order=order, route=route, container="list")
         for name in PATTERN_ORDERS:
             for S in (1, 3):
                 add(kind="pattern_order", base=b, slices=S, order=name)
